@@ -60,7 +60,8 @@ AXES = {
     "other_lang_layout": LAYOUTS[:4],
     "cap_layout": LAYOUTS,
     "span_layout": LAYOUTS,
-    "concurrent": [False, True],
+    # True: captions 1 and 2 share their times (one run); "aba": captions 1 and 3 do, caption 2 lies between (three runs)
+    "concurrent": [False, True, "aba"],
 }
 OPTS = [
     {},
@@ -115,9 +116,10 @@ def build(cfg):
         if cfg["cap_style_key"]:
             style = {cfg["cap_style_key"]: cfg["cap_style_val"]}
         cl.append(Caption(1000000, 2000000, nodes, style=style, layout_info=mk_layout(cfg["cap_layout"])))
-        t2 = (1000000, 2000000) if cfg["concurrent"] else (3000000, 4000000)
+        t2 = (1000000, 2000000) if cfg["concurrent"] is True else (3000000, 4000000)
         cl.append(Caption(t2[0], t2[1], [CaptionNode.create_text("second " + lang[:2])], layout_info=mk_layout(cfg["other_lang_layout"]) if li else (mk_layout(LAYOUTS[1]) if own else None)))
-        cl.append(Caption(5000000, 6000000, [CaptionNode.create_text("third")], layout_info=mk_layout(LAYOUTS[3]) if own and not li else None))
+        t3 = (1000000, 2000000) if cfg["concurrent"] == "aba" else (5000000, 6000000)
+        cl.append(Caption(t3[0], t3[1], [CaptionNode.create_text("third")], layout_info=mk_layout(LAYOUTS[3]) if own and not li else None))
         caps[lang] = cl
     cs = CaptionSet(caps)
     styles = {}
@@ -249,8 +251,8 @@ def evaluate_raw(cfg, wname, opt):
     else:
         exp_langs = langs
     merging = wname != "DFXPWriter"
-    nps = [{3, 2} if (merging and cfg["concurrent"]) else {3} for _ in exp_langs]
-    if merging and cfg["concurrent"]:
+    nps = [{3, 2} if (merging and cfg["concurrent"] is True) else {3} for _ in exp_langs]
+    if merging and cfg["concurrent"] is True:
         nps = [{2} for _ in exp_langs]
     out = check_doc(doc, exp_langs, nps, None)
     return [(f"C07/{wname}/{kind}/{minimal_class(cfg)}", dict(det, cfg={k: cfg[k] for k in cfg if cfg[k] != AXES[k][0]})) for kind, det in out], "ok" if not out else "bad"
@@ -384,7 +386,7 @@ def run_shard(d):
                 except Exception:  # noqa
                     continue
                 nps = [{3} for _ in langs]
-                if w != "DFXPWriter" and cfg["concurrent"]:
+                if w != "DFXPWriter" and cfg["concurrent"] is True:
                     nps = [{2} for _ in langs]
                 res = check_doc(doc, langs, nps, None)
                 prev = minimal_class(order[step - 1]) if step else "-"
@@ -458,7 +460,7 @@ def replay(case):
             except Exception:  # noqa
                 continue
             nps = [{3} for _ in langs]
-            if w != "DFXPWriter" and cfg["concurrent"]:
+            if w != "DFXPWriter" and cfg["concurrent"] is True:
                 nps = [{2} for _ in langs]
             if step == len(order) - 1:
                 prev = (minimal_class(order[step - 1]) if len(order) == 2 else "longer-history") if step else "-"
